@@ -15,6 +15,7 @@ open Tak Search
 def genEntry {M : Type} (te : TEntry M) : Gen.tableEntry :=
   { hash := 0#64, value := te.value, m := default, bound := BitVec.ofNat 8 te.bound, depth := te.depth }
 
+/-- helper: comparing two bytes below 256 as `BitVec 8` or as numbers is the same -/
 theorem ofNat8_beq (a b : Nat) (ha : a < 256) (hb : b < 256) : (BitVec.ofNat 8 a == BitVec.ofNat 8 b) = (a == b) := by
   by_cases h : a = b
   · subst h; simp
